@@ -286,7 +286,7 @@ JOBS['C15'] = Job('C15', mc='MC_Wire', tag='WIRE', drive='wire-run', trace='Trac
 NT = ('VlanId', 'VlanPcp', 'IpDscp', 'IpEcn', 'IpFragOffset', 'Ipv6FlowLabel', 'MacsecAn', 'MacsecShortLen', 'Qrv')
 
 
-BITFIELD_APIS = ('ipv6.set_dscp', 'ipv6.set_ecn')      # bit-field isolation: C15
+BITFIELD_APIS = ('ipv6.set_dscp', 'ipv6.set_ecn', 'igmp.set_qrv', 'igmp.set_s_flag', 'igmp.set_flags')      # bit-field isolation: C15
 
 
 def fields_tag_props_c14(tag):
